@@ -1490,4 +1490,80 @@ theorem resume_cinv {p : Prog} {w0 : W} (hs : Susp p w0) (hi : Inv1 p w0) (t l :
       have := key _ (noteOK_cleanup r)
       simpa [future, hpos', noteCleanup_stack, hwu] using this
 
+/-! ### the chain invariant through the loop -/
+
+theorem future_congr (p : Prog) (c c' : Chain) (hpos : c.pos = c'.pos) (hs : c.stack = c'.stack)
+    (hn : c.nextCleanup = c'.nextCleanup) : future p c = future p c' := by
+  have h1 := register_congr p.body.cleanups c c' hs hn
+  have h2 := register_congr p.tearDown.cleanups _ _ h1.1 h1.2
+  have h3 := register_congr p.tearDown.cleanups c c' hs hn
+  simp only [future, hpos, h2.1, h3.1, hs]
+
+theorem future_realStops (p : Prog) (c : Chain) (k : Nat) : future p { c with realStops := k } = future p c :=
+  future_congr p _ _ rfl rfl rfl
+
+/-- a step that leaves the chain state (up to the stop counter), the stage-firing calls and the recorded
+success alone keeps the chain invariant -/
+theorem cinv_congr {p : Prog} {w w' : W} (h : CInv p w) (k : Nat) (hu : w'.u = { w.u with realStops := k })
+    (hsd : sdOf w'.calls = sdOf w.calls) (hsucc : w'.sp.success = w.sp.success) : CInv p w' := by
+  have hb : ∀ pre, Book pre w.u → Book pre w'.u := by
+    intro pre hb; rw [hu]; exact ⟨hb.forced, hb.logged, hb.dropped, hb.excs, hb.obs⟩
+  rcases h with h | h
+  · obtain ⟨pre, n, st, h1, h2, h3, h4, h5, h6, h7, h8, h9, h10, h11⟩ := h.ex
+    refine Or.inl ⟨pre, n, st, ?_, ?_, ?_, h4, ?_, ?_, ?_, ?_, hb _ h9, ?_, by rw [hsucc]; exact h11⟩
+    · rw [hu, future_realStops]; exact h1
+    · rw [hu]; exact h2
+    · rw [hu]; exact h3
+    · rw [hu]; exact h5
+    · rw [hu]; exact h6
+    · rw [hsd, hu]; exact h7
+    · rw [hu]; exact h8
+    · rw [hu]; exact h10
+  · obtain ⟨pre, h1, h2, h3, h4, h5, h6, h7, h8, h9⟩ := h.ex
+    refine Or.inr ⟨pre, h1, by rw [hu]; exact h2, by rw [hu]; exact h3, by rw [hsd]; exact h4, hb _ h5,
+      by rw [hu]; exact h6, by rw [hu]; exact h7, ?_, ?_⟩
+    · intro b hb'; rw [hsucc] at hb'; rw [hu]; exact h8 b hb'
+    · intro hn; rw [hsucc] at hn; rw [hu]; exact h9 hn
+
+theorem realStops_self (c : Chain) : c = { c with realStops := c.realStops } := rfl
+
+theorem cinv_pop {p : Prog} {w : W} (h : CInv p w) (hi : Inv1 p w) (c : DCall (QAct CAct)) (rest : List (DCall (QAct CAct)))
+    (hc : w.calls = c :: rest) (hdue : c.time ≤ w.now) : CInv p (execCall (exec p) c { w with calls := rest }) := by
+  rcases c with ⟨t, q⟩
+  cases q with
+  | timeout =>
+    refine cinv_congr h w.u.realStops (by simp [execCall]) ?_ (by simp [execCall])
+    simp only [execCall, execTimeout_calls, hc]; rfl
+  | user l a =>
+    cases a with
+    | noop =>
+      refine cinv_congr h w.u.realStops rfl ?_ rfl
+      simp only [execCall, exec, logEvent_calls, hc]; rfl
+    | stop =>
+      simp only [execCall, exec]
+      split
+      · refine cinv_congr h w.u.realStops rfl ?_ rfl
+        simp only [logEvent_calls, hc]; rfl
+      · refine cinv_congr h (w.u.realStops + 1) rfl ?_ rfl
+        simp only [logEvent_calls, hc]; rfl
+    | stageDone r =>
+      rcases h with h | h
+      · exact resume_cinv h hi t l r rest hc hdue
+      · obtain ⟨_, _, _, _, h4, _⟩ := h.ex
+        rw [hc] at h4
+        cases h4
+
+theorem cinv_now {p : Prog} {w : W} (h : CInv p w) (t : Nat) : CInv p { w with now := t } :=
+  cinv_congr h w.u.realStops rfl rfl rfl
+
+/-- both invariants together, through `drain` and `spin` -/
+def LInv (p : Prog) (w : W) : Prop := Inv1 p w ∧ CInv p w
+
+theorem linv_drain {p : Prog} (n : Nat) (w : W) (h : LInv p w) : LInv p (drain (exec p) n w) :=
+  drain_inv (exec p) (LInv p) (fun _ c rest h hc hd => ⟨inv1_pop h.1 c rest hc hd, cinv_pop h.2 h.1 c rest hc hd⟩) n w h
+
+theorem linv_spin {p : Prog} (f : W → Nat) (n : Nat) (w : W) (h : LInv p w) : LInv p (spin (exec p) f n w) :=
+  spin_inv (exec p) f (LInv p) (fun _ c rest h hc hd => ⟨inv1_pop h.1 c rest hc hd, cinv_pop h.2 h.1 c rest hc hd⟩)
+    (fun _ c rest h hc hcr => ⟨inv1_adv h.1 c rest hc hcr, cinv_now h.2 _⟩) n w h
+
 end TTV.Props.C14
